@@ -8,6 +8,7 @@ import contextlib
 import io
 import json
 import os
+import random
 import subprocess
 import sys
 
@@ -21,6 +22,91 @@ _n = [0]
 def fresh(workdir, suffix):
     _n[0] += 1
     return os.path.join(workdir, f"f{_n[0]}{suffix}")
+
+
+# ---- hostile context: outputs that already exist ---------------------------------------------------------
+# A third of the output paths handed out by fresh_out() already hold the output of an "earlier run":
+#   * garbage that is LONGER than any output (a tool that appends, opens without truncating or keeps what is there
+#     leaves part of it behind), or
+#   * the genuine output of an earlier case with the same suffix (captured when that case deleted it), dated one hour
+#     in the FUTURE (a tool that merges into an existing file, or skips work because "the output is up to date", keeps
+#     the old content).
+# Either way the ordinary oracles of the check see a wrong output.  Verdict code asks written(path), not exists(path).
+STALE = b"STALE OUTPUT OF AN EARLIER RUN - MUST BE REPLACED COMPLETELY\n" * 2200      # 132 kB
+_m = [0]
+stale_handed_out = {"garbage": 0, "earlier-output": 0}
+_outs = {}            # path -> suffix, for the paths handed out by fresh_out
+_prev = {}            # suffix -> bytes of the last genuine output that was deleted
+_stale_now = {}       # path -> bytes it was pre-filled with
+_stale_sig = {}       # path -> (mtime_ns, inode, size) right after pre-filling
+_real_unlink = os.unlink
+
+
+def _unlink(path, *a, **kw):
+    try:
+        sfx = _outs.pop(path, None) if isinstance(path, str) else None
+        if sfx is not None:
+            with open(path, "rb") as fh:
+                data = fh.read(1 << 20)
+            if data and data != _stale_now.get(path) and not data.startswith(STALE[:64]):
+                _prev[sfx] = data
+            _stale_now.pop(path, None)
+    except OSError:
+        pass
+    return _real_unlink(path, *a, **kw)
+
+
+os.unlink = _unlink
+
+
+def make_stale(path, data=None, future=False):
+    data = STALE if data is None else data
+    with open(path, "wb") as fh:
+        fh.write(data)
+    _stale_now[path] = data
+    if future:
+        t = __import__("time").time() + 3600
+        os.utime(path, (t, t))
+    _stale_sig[path] = _sig(path)
+
+
+def _kind(suffix):
+    return suffix[suffix.rfind("."):] if "." in suffix else suffix
+
+
+def fresh_out(workdir, suffix):
+    p = fresh(workdir, suffix)
+    _outs[p] = _kind(suffix)
+    _m[0] += 1
+    x = random.Random(f"stale/{_m[0]}").random()      # not a modulus of the call counter: cases ask for k outputs each
+    if x < 1 / 6:
+        make_stale(p)
+        stale_handed_out["garbage"] += 1
+    elif x < 2 / 6 and _kind(suffix) in _prev:
+        make_stale(p, _prev[_kind(suffix)], future=True)
+        stale_handed_out["earlier-output"] += 1
+    return p
+
+
+def _sig(path):
+    st = os.stat(path)
+    return (st.st_mtime_ns, st.st_ino, st.st_size)
+
+
+def is_stale(path):
+    """the file is still the one fresh_out() pre-filled: not replaced, not rewritten (same inode, mtime and size)"""
+    want = _stale_sig.get(path)
+    if want is None:
+        return False
+    try:
+        return _sig(path) == want
+    except OSError:
+        return False
+
+
+def written(path):
+    """the tool produced (or changed) this output: it exists and is not the untouched stale file"""
+    return os.path.exists(path) and not is_stale(path)
 
 
 def write_desc(path, desc, fmt):
@@ -95,7 +181,7 @@ def script_sub(script, argv, cwd, guard=False, timeout=300):
 def create(desc, workdir, route="lib", fmt="json"):
     """description object -> envelope bytes through the chosen route"""
     src = fresh(workdir, "." + fmt)
-    dst = fresh(workdir, ".suit")
+    dst = fresh_out(workdir, ".suit")
     write_desc(src, desc, fmt)
     try:
         return create_file(src, dst, route, fmt)
@@ -137,7 +223,7 @@ def create_file(src, dst, route="lib", fmt="AUTO"):
 def parse(data, workdir, route="lib", fmt="json", hierarchy=False):
     """envelope bytes -> description object (as read back from the yaml/json file written by parse)"""
     src = fresh(workdir, ".suit")
-    dst = fresh(workdir, "." + fmt)
+    dst = fresh_out(workdir, "." + fmt)
     with open(src, "wb") as fh:
         fh.write(data)
     try:
